@@ -1,13 +1,14 @@
 import os
 ID = 'C11'
 LEVEL = 'other'
-CONTRACT_MODULES = ['contracts.forecasts', 'contracts.time_utils']
-CONE = ['csep.core.forecasts.GriddedDataSet.scale', 'csep.core.forecasts.GriddedDataSet.data', 'lemma:csep.core.forecasts.GriddedDataSet.scale;scale;data', 'lemma:csep.core.forecasts.MarkedGriddedDataSet.marginals', 'csep.core.forecasts.GriddedForecast.scale_to_test_date']
+CONTRACT_MODULES = ['contracts.forecasts', 'contracts.time_utils', 'contracts.regions', 'contracts.calc', 'contracts.catalogs']
+CONE = ['csep.core.forecasts.GriddedDataSet.scale', 'csep.core.forecasts.GriddedDataSet.data', 'lemma:csep.core.forecasts.GriddedDataSet.scale;scale;data', 'lemma:csep.core.forecasts.MarkedGriddedDataSet.marginals', 'csep.core.forecasts.GriddedForecast.scale_to_test_date',
+        'csep.core.forecasts.GriddedForecast.get_rates']
 ORACLE_MODULES = ['rt.oracles_io']
 BOUNDED = os.path.exists(os.path.join(os.path.dirname(__file__), '..', 'rt', 'bounded_C11.py'))
 FLOAT_MODEL = 'R'
 TRUSTED = ['decimal_year as an abstract function of the instant (its own behaviour: C15 bounded)', 'lemma L2 (row sums and column sums add up to the total) from the lemma library', 'pyvc engine, z3 5.1']
-ASSUMPTIONS = ['load_ascii / quadtree loaders (numpy.loadtxt, unique, file layout -> cells and rates) are NOT under proof: bounded stand-in only (generated forecast files, every row looked up at its lower corner and centre)']
+ASSUMPTIONS = ['proved: the rate lookup get_rates on a forecast over a lattice region (RI) with equally spaced magnitude edges - a point inside the half-open cell of active cell i with a magnitude inside bin k (lower edges included, upper edges excluded up to the documented tolerance, last magnitude bin open) gets the stored rate of (i, k) times the current scale factor; scaling is absolute; marginals add up', 'load_ascii / quadtree loaders (numpy.loadtxt, unique, file layout -> cells and rates) are NOT under proof: bounded stand-in only (generated forecast files, every row looked up at its lower corner and centre)']
 EXPLANATION = 'scale(v) replaces the factor and writes nothing else; data == stored rates x current factor; after any two scale calls data == original x last factor (never cumulative); scale_to_test_date sets the documented fraction inside (start, end) and leaves the object untouched outside; marginals are row / column sums'
 TECHNIQUE = 'object-invariant contracts and lemmas over the real method bodies (frame conditions by field/closure identity), z3; bounded file round trips'
 LEVEL_TEXT = 'other: scaling and marginal clauses proved for arrays of arbitrary shape; file loading clauses decided by the bounded run-time contract only'
